@@ -710,7 +710,16 @@ func (g *c03Gen) xmlBody(items []sl.KV) (body string, texts, attrs []c03Exp) {
 		na := 0
 		first := len(attrs)
 		for na < len(items) && na < 3 && g.chance(0.3) {
-			sb.WriteString(fmt.Sprintf(` a%d="%s"`, na, g.xmlEscape(items[na].V, true)))
+			// attribute names: ordinary ones, namespace prefix declarations and the default namespace declaration -
+			// the value of any attribute is document data
+			an := fmt.Sprintf("a%d", na)
+			switch {
+			case g.chance(0.2):
+				an = fmt.Sprintf("xmlns:n%d", na)
+			case na == 0 && g.chance(0.12):
+				an = "xmlns"
+			}
+			sb.WriteString(fmt.Sprintf(` %s="%s"`, an, g.xmlEscape(items[na].V, true)))
 			attrs = append(attrs, c03Exp{KV: sl.KV{K: "//@*", V: items[na].V}})
 			na++
 		}
